@@ -27,4 +27,6 @@ run "no longer matches the source root" C17
 run "treats a dangling symbolic link" C08
 run "errors while probing the destination" C04
 run "do not delete a special file" C03
+run "refuse an existing destination that is not a regular file" C07
+run "do not read a .gitignore that is not a regular file" C07
 git status --short | head -3
